@@ -28,19 +28,19 @@ type firedFault struct {
 
 // world is the per-run environment: directories, fault bookkeeping.
 type world struct {
-	p                       *C13Plan
-	root                    string
-	src, dst, bak, tmp      string
-	auxSrc, auxDst          string
-	phase                   string
-	priorID                 string
-	seenFS, seenBE          []int
-	fired                   []firedFault
-	mutOps                  int
-	n1                      *simrt.Node
-	listed                  bool
-	delBefore, delAfter     map[string]bool
-	crashedInBackup         bool
+	p                   *C13Plan
+	root                string
+	src, dst, bak, tmp  string
+	auxSrc, auxDst      string
+	phase               string
+	priorID             string
+	seenFS, seenBE      []int
+	fired               []firedFault
+	mutOps              int
+	n1                  *simrt.Node
+	listed              bool
+	delBefore, delAfter map[string]bool
+	crashedInBackup     bool
 }
 
 func newWorld(p *C13Plan, root string) *world {
@@ -583,13 +583,18 @@ func runC13(planAny any, cfg simrt.Config) *simkit.Outcome {
 			out.Stats["probe.completed_backup_lacks_files"]++
 			if manifest.SkippedFiles == 0 {
 				circ := "no-read-failure"
+				if nFired["backup"] > 0 {
+					circ = "other-fault"
+				}
 				for _, m := range missing {
 					if w.delAfter[m] || w.firedOn("backup", m) != "" {
 						circ = "unreadable-files-skipped"
 					}
 				}
-				if circ == "no-read-failure" && nFired["backup"] > 0 {
-					circ = "other-fault"
+				for _, f := range w.fired {
+					if f.phase == "backup" && f.area == "tmp" {
+						circ = "unreadable-files-skipped" // a failed temp-file write is classified as a source read failure
+					}
 				}
 				out.Violate("C13.backup-incomplete-not-recorded."+circ, "backup %s completed (manifest written) without %d of %d data/Iceberg-metadata files (first: %s) but its manifest records skipped_files=0, i.e. claims to be complete", backupID, len(missing), len(S), missing[0])
 			}
